@@ -329,6 +329,13 @@ func c12Check(o *hx.Obs, c c12Case, log *recLog, apiErr error, panicTxt string, 
 			o.Failf(sig("not-wrapped"), "callback %d (%s on the %s side) failed; the API error %q does not wrap it\nhistory: %s", k, faultKind, faultSide, apiErr, desc())
 			return false
 		}
+		// the second failure (an EndEdit that failed after the fault) is a callback error like the first
+		for _, e := range log.events {
+			if e.Kind == "EndEdit" && e.Err && !e.Faulted && log.endsFail && !errors.Is(apiErr, errSentinel2) {
+				o.Failf(sig("second-error-lost"), "EndEdit %d failed too (after the fault at %d) but the API error %q does not wrap that failure\nhistory: %s", e.Seq, k, apiErr, desc())
+				return false
+			}
+		}
 	} else if apiErr != nil && !expectErr {
 		o.Failf(sig("spurious-error"), "fault-free %s failed: %v", c.Op, apiErr)
 		return false
